@@ -88,11 +88,12 @@ Demands(c) ==
             : i \in 1..Len(NativePaths(c.fields[k])) } : k \in 1..Len(c.fields) }
 DemandedDirs(c) == { d[1] : d \in Demands(c) }
 (* the statement gives one mode per path; when paths of both kinds share a *)
-(* directory it does not say which mode the single mount gets: "*" = open  *)
+(* directory the single mount must be read-write (copied inputs and outputs *)
+(* must be writable there; a read-only mount would contradict their mode)   *)
 Mounts(c) ==
   LET dm      == Demands(c)
       mode(d) == LET ms == { x[2] : x \in { y \in dm : y[1] = d } }
-                 IN  IF Cardinality(ms) = 1 THEN CHOOSE m \in ms : TRUE ELSE "*"
+                 IN  IF Cardinality(ms) = 1 THEN CHOOSE m \in ms : TRUE ELSE "rw"
   IN  { [h |-> d, m |-> mode(d)] : d \in { x[1] : x \in dm } }
       \cup { [h |-> CacheRoot, m |-> "rw"] }
 OpenDirs(c) == { mt.h : mt \in { x \in Mounts(c) : x.m = "*" } }
